@@ -7,6 +7,7 @@
 mod core;
 mod enc;
 mod props;
+mod t31;
 
 use crate::core::*;
 use serde_json::Value;
@@ -16,6 +17,10 @@ type ReplayFn = fn(&'static Ctx, &Value);
 
 fn table() -> Vec<(&'static str, RunFn, ReplayFn)> {
     vec![
+        ("C01", props::c01::run as RunFn, props::c01::replay as ReplayFn),
+        ("C03", props::c03::run as RunFn, props::c03::replay as ReplayFn),
+        ("C07", props::c07::run as RunFn, props::c07::replay as ReplayFn),
+        ("C02", props::c02::run as RunFn, props::c02::replay as ReplayFn),
         ("C13", props::c13::run as RunFn, props::c13::replay as ReplayFn),
         ("C12", props::c12::run as RunFn, props::c12::replay as ReplayFn),
         ("C11", props::c11::run as RunFn, props::c11::replay as ReplayFn),
